@@ -252,7 +252,7 @@ def r102(chk, m):
         me.attrs['ownerDocument'] = d.doc
         # the context: push and pop are events however they are reached (a local alias, a private context manager of Context)
         d.doc.attrs['context'] = A.Obj('context', {'pop': A.Sym('extfunc:the.context.pop', truthy=True), 'push': A.Sym('extfunc:the.context.push', truthy=True),
-                                                   'top': A.Sym('frame', truthy=True)}, cls=m.cls('plasTeX.Context', 'Context'))
+                                                   'top': A.Sym('frame')}, cls=m.cls('plasTeX.Context', 'Context'))
         tex = A.Obj('tex', {})
 
         def fmt(s, v):
